@@ -8,6 +8,7 @@ from .. import gen as G, harness as H, loader, model as M, spec as S
 
 PROP = "C10"
 LEVEL = "exploration"
+ANCHORS = ["_Interp", "_check_interp", "__init__"]  # functions whose reached lines are reported in the evidence
 RULE = (
     "cases = (kind, parameter) in {Converter.eff, VLoss.vdrop, Rectifier.vdrop, LinReg.ig, PSwitch.ig, PMux.ig, "
     "Rectifier.ig} x random well-conditioned tables (1-D with 1-8 points; 2-D 2-6 x 2-8, log-spaced / anisotropic "
